@@ -13,10 +13,14 @@ proved for the larger class of all interleavings of micro steps (`MStar`) and tr
 purge branch is a guard of the step (`MStep.handle`), so the theorem's content is the refinement — the
 operation `tick`, which runs the code's `wait(ALL_COMPLETED)` + `maybe_clean` before the purge body, leaves
 no future of the dataset behind whatever stage the pool jobs were at (`Aux.handleAll_mstar`).
+`c07_purge_waits_every_job` (+ `_tick`) says what the wait is for: EVERY future pending when the purge branch (the
+iteration) begins — any number, any dataset, any stage, any pool order — has reported the end of its job in the trace
+BEFORE the `purged` event (`Lemmas/TransferWait.lean`).
 -/
 import EkwVerif.Lemmas.Transfer
 import EkwVerif.Lemmas.TransferRetry
 import EkwVerif.Lemmas.TransferProg
+import EkwVerif.Lemmas.TransferWait
 
 namespace EkwVerif.Transfer
 open Aux
@@ -161,6 +165,48 @@ theorem c07_no_resurrection_race (w0 : World) (hf : Fresh w0) (ops later : List 
 theorem c07_purge_waits (w0 : World) (hf : Fresh w0) (ops : List Op) (h ds k : Nat)
     (hp : Event.purged h ds k ∈ (run w0 ops).log) : k = 0 :=
   (inv_run w0 hf ops).purge_ok h ds k hp
+
+/-- the pool job of future key `k` on host `h` has come to its end: what it reports on its way out.
+(Every way a job run by the pool ends emits one of these: `send_payload` ends with `sent` or — invalid command,
+dataset not in the store at either stage, a raising socket — `sendFail`; `store_payload` ends with `announced`,
+with `redundant` (ConflictError) or with `storeFail`.) -/
+def jobEnded (h : Nat) (k : Key) (evs : List Event) : Prop :=
+  match k with
+  | .cmd c => (∃ b f, Event.sent h c b f ∈ evs) ∨ Event.sendFail h c ∈ evs
+  | .pay p => Event.announced h p.ds p.confirmIdx ∈ evs ∨ Event.redundant h p.ds p.confirmIdx ∈ evs ∨
+              ∃ st, Event.storeFail h p.ds p.confirmIdx st ∈ evs
+
+namespace Aux
+theorem jobEnded_iff (h : Nat) (k : Key) (evs : List Event) : jobEnded h k evs ↔ ended h k evs := by
+  cases k <;> exact Iff.rfl
+end Aux
+
+/-- **the purge waits for EVERY job in flight.** The message loop of a live data server standing at a purge of `ds`,
+with ANY futures in `futs_in_progress` — any number of them, of any dataset, send or store jobs, each at any stage,
+run by the pool in any order (`sched`): the trace it produces is `post ++ purged h ds 0 :: pre` (newest first), i.e.
+the shm purge is issued with no future left (`0`), and `pre` — what happened between the start of the `wait` and the
+shm purge — contains the end-of-job report of every future that was pending: the purge waited for all of them, not
+for one.  (Last clause: `pre` contains no shm purge at all — the `purged` event displayed is the first one after the
+wait began, so `pre` really is "before the purge".) -/
+theorem c07_purge_waits_every_job (w : World) (h ds : Nat) (rest : List Msg) (fuel : Nat) (sched : List Nat)
+    (hc : (w.hosts h).crashed = false) (hi : (w.hosts h).inbox = .purge ds :: rest) :
+    ∃ pre post, (handleAll h (fuel + 1) sched w).1.log = post ++ Event.purged h ds 0 :: (pre ++ w.log) ∧
+      (∀ f ∈ (w.hosts h).futs, f.result = none → jobEnded h f.key pre) ∧
+      ∀ h' d k, Event.purged h' d k ∉ pre := by
+  obtain ⟨pre, post, hl, hall, hnp⟩ := handleAll_purge_log w h ds rest fuel sched hc hi
+  exact ⟨pre, post, hl, fun f hm hr => (jobEnded_iff h f.key pre).mpr (hall f hm hr), hnp⟩
+
+/-- **… seen from one iteration of `recv_loop`.** In ANY state in which the data server of `h` is alive with nothing
+unread (whatever its pool is doing): the iteration that receives a purge of `ds` — initial `maybe_clean`,
+`recv_messages`, the purge branch, the retry loop — produces `post ++ purged h ds 0 :: pre`, and every future that was
+pending when the iteration began has reported the end of its job in `pre`, before the shm purge. -/
+theorem c07_purge_waits_every_job_tick (w : World) (h ds : Nat) (sched : List Nat)
+    (hc : (w.hosts h).crashed = false) (hs : (w.hosts h).sock = []) (hi : (w.hosts h).inbox = []) :
+    ∃ pre post, (step w (.tick h [.msg (.purge ds)] sched)).log = post ++ Event.purged h ds 0 :: (pre ++ w.log) ∧
+      (∀ f ∈ (w.hosts h).futs, f.result = none → jobEnded h f.key pre) ∧
+      ∀ h' d k, Event.purged h' d k ∉ pre := by
+  obtain ⟨pre, post, hl, hall, hnp⟩ := tick_msg_purge_log h ds sched w hc hs hi
+  exact ⟨pre, post, hl, fun f hm hr => (jobEnded_iff h f.key pre).mpr (hall f hm hr), hnp⟩
 
 /-- **retry until acked.**
 (a) In any reachable state, if the confirmation of transfer `idx` is overdue at host `h` (`at > 0`,
@@ -479,5 +525,58 @@ example : lookup ((run exW0 (exRetry ++ completion 1 2 (run exW0 exRetry).net.le
   c07_completes_partial exW0 exRetry 1 2 0 exT 1 "aa" "df0" (by decide) (by decide) (by decide) rfl rfl rfl rfl
     (by decide) (by decide) (by decide) (by decide) (by decide) (by decide) (by decide) (by decide) (by decide)
     (by decide) (by decide) (by decide) (by decide) (by decide) (by decide) (by decide) (by decide) (by decide)
+
+/-! ### non-vacuity of "the purge waits for EVERY job" -/
+
+/-- two send jobs (transfer 0, fetch 1) submitted by the same iteration that then reads the purge: the purge branch
+runs BOTH to their end — in either order — before the shm purge (logs are newest first) -/
+example : (run exW0 [.tick 1 [.msg (.cmd exT), .msg (.cmd exF), .msg (.purge 0)] []]).log =
+    [.purged 1 0 0, .sent 1 exF "aa" "df0", .sent 1 exT "aa" "df0", .submitted 1 1 0, .submitted 1 0 0] := by decide
+example : (run exW0 [.tick 1 [.msg (.cmd exT), .msg (.cmd exF), .msg (.purge 0)] [1]]).log =
+    [.purged 1 0 0, .sent 1 exT "aa" "df0", .sent 1 exF "aa" "df0", .submitted 1 1 0, .submitted 1 0 0] := by decide
+example : ((run exW0 [.tick 1 [.msg (.cmd exT), .msg (.cmd exF), .msg (.purge 0)] [1]]).hosts 1).futs = [] ∧
+    lookup ((run exW0 [.tick 1 [.msg (.cmd exT), .msg (.cmd exF), .msg (.purge 0)] [1]]).hosts 1).store 0 = none := by decide
+
+/-- a send job stopped at stage 1 (buffer open) and a fresh one: both are finished before the purge -/
+def exStage1 : List Op := [.tick 1 [.msg (.cmd exT)] [], .jobstep 1 0 .none]
+example : ((run exW0 exStage1).hosts 1).futs = [⟨.cmd exT, 1, none⟩] := by decide
+example : (run exW0 (exStage1 ++ [.tick 1 [.msg (.cmd exF), .msg (.purge 0)] []])).log =
+    [.purged 1 0 0, .sent 1 exF "aa" "df0", .sent 1 exT "aa" "df0", .submitted 1 1 0, .submitted 1 0 0] := by decide
+
+/-- a store job stopped between allocate and close at the target when the purge arrives: written, closed and
+announced first, then purged -/
+example : (run exW0 [.tick 1 [.msg (.cmd exT)] [], .job 1 0, .tick 2 [.frame 0 false] [], .jobstep 2 0 .none,
+      .tick 2 [.msg (.purge 0)] []]).log =
+    [.purged 2 0 0, .announced 2 0 0, .stored 2 0 0 "aa" "df0", .sent 1 exT "aa" "df0", .submitted 1 0 0] := by decide
+
+/-- `c07_purge_waits_every_job_tick` on the stage-1 state: the pending send job of transfer 0 reports before the purge -/
+example : ∃ pre post, (run exW0 (exStage1 ++ [.tick 1 [.msg (.purge 0)] [3]])).log =
+      post ++ Event.purged 1 0 0 :: (pre ++ (run exW0 exStage1).log) ∧ jobEnded 1 (.cmd exT) pre := by
+  obtain ⟨pre, post, hl, hall, _⟩ := c07_purge_waits_every_job_tick (run exW0 exStage1) 1 0 [3] (by decide) (by decide) (by decide)
+  refine ⟨pre, post, ?_, hall ⟨.cmd exT, 1, none⟩ (by decide) rfl⟩
+  rw [run_append]; exact hl
+
+/-- the message loop standing at a purge of dataset 0 with THREE futures in flight: a send job not yet started, a send
+job with its buffer open, and a store job of ANOTHER dataset (5) -/
+def exWPh : Host :=
+  { store := [(0, "aa", "df0")], inbox := [.purge 0],
+    futs := [⟨.cmd exT, 0, none⟩, ⟨.cmd exF, 1, none⟩, ⟨.pay ⟨3, 7, 5, "df5", "ee"⟩, 0, none⟩] }
+def exWP : World := { hosts := fun h => if h = 1 then exWPh else {} }
+
+example : ∃ pre post, (handleAll 1 1 [2, 1] exWP).1.log = post ++ Event.purged 1 0 0 :: (pre ++ exWP.log) ∧
+    jobEnded 1 (.cmd exT) pre ∧ jobEnded 1 (.cmd exF) pre ∧ jobEnded 1 (.pay ⟨3, 7, 5, "df5", "ee"⟩) pre := by
+  obtain ⟨pre, post, hl, hall, _⟩ := c07_purge_waits_every_job exWP 1 0 [] 0 [2, 1] (by decide) (by decide)
+  exact ⟨pre, post, hl, hall ⟨.cmd exT, 0, none⟩ (by decide) rfl, hall ⟨.cmd exF, 1, none⟩ (by decide) rfl,
+    hall ⟨.pay ⟨3, 7, 5, "df5", "ee"⟩, 0, none⟩ (by decide) rfl⟩
+/-- … what the theorem's `pre` is there, for two schedules -/
+example : (handleAll 1 1 [2, 1] exWP).1.log =
+    [.purged 1 0 0, .sent 1 exT "aa" "df0", .sent 1 exF "aa" "df0", .announced 1 5 7, .stored 1 5 7 "ee" "df5"] := by decide
+example : (handleAll 1 1 [] exWP).1.log =
+    [.purged 1 0 0, .announced 1 5 7, .stored 1 5 7 "ee" "df5", .sent 1 exF "aa" "df0", .sent 1 exT "aa" "df0"] := by decide
+/-- `jobEnded` is not trivially true: nothing has ended in an empty trace, and the report of one job is not the
+report of another -/
+example : ¬ jobEnded 1 (.cmd exT) [] ∧ ¬ jobEnded 1 (.cmd exT) [.sent 1 exF "aa" "df0"] ∧
+    ¬ jobEnded 1 (.pay ⟨3, 7, 5, "df5", "ee"⟩) [.stored 1 5 7 "ee" "df5"] := by
+  simp [jobEnded, exT, exF]
 
 end EkwVerif.Transfer
